@@ -263,6 +263,15 @@ def search(h):
                     kw["name"] = "n"
                 box["set"].add(h.new(R, **kw))
     w.havocs.append(havoc)
+    def wait_for(it2, aw, timeout):
+        # assumed contract of asyncio.wait_for: the awaitable completes early, or TimeoutError after `timeout` seconds
+        w.event("wait_for", timeout)
+        aio.suspend(it2, ("wait_for", timeout))
+        if w.nondet(2, "wait_for outcome") == 0:
+            return it2.await_value(aw) if not isinstance(aw, aio.Awaitable) or aw.label != "Event.wait" else True
+        aio.advance_clock(it2, exactly=timeout)
+        raise it2.exc("TimeoutError")
+    h.it.wait_for_hook = wait_for
     disc = h.new(DISC + ":AirTouchDiscoverer", h.get(G["mod"] + ":CONFIG"), **({"remote_host": "192.168.1.9"} if unicast else {}))
     t0 = aio.now(h.it)
     r = h.method(disc, "search")
